@@ -69,7 +69,8 @@ def main():
             print("suite: %s (%.0fs)" % (meta["suite"], time.time() - t))
             if s.returncode:
                 print(s.stdout[-2000:])
-        cenv = dict(os.environ, VERIF_REPO=wt, PYTHONPATH=wt + ":/verif", PYTHONDONTWRITEBYTECODE="1")
+        cenv = dict(os.environ, VERIF_REPO=wt, PYTHONPATH=wt + ":/verif", PYTHONDONTWRITEBYTECODE="1",
+                    VERIF_EVIDENCE_DIR="/tmp/verif-evidence-scratch")
         cmd = ["/venv/bin/python", "-m", "vp.runner", prop, "--tier", tier]
         t = time.time()
         proc = subprocess.Popen(cmd, env=cenv, cwd="/verif", stdout=subprocess.PIPE, stderr=subprocess.STDOUT,
